@@ -31,6 +31,7 @@ func TestVerifC10Worker(t *testing.T) {
 		t.Skip("worker entry point")
 	}
 	runtime.GOMAXPROCS(2)
+	debug.SetGCPercent(400) // SizedDigests allocates 1 MiB per call; collect less often
 	mfgen.Serve(c10Handle)
 	os.Exit(0)
 }
@@ -722,6 +723,7 @@ func TestVerifC10(t *testing.T) {
 		t.Skip("worker process")
 	}
 	runtime.GOMAXPROCS(2) // the harness is sequential; fewer Ps = less scheduler churn on a busy machine
+	debug.SetGCPercent(400)
 	run := verifkit.Start(t, "C10")
 	defer run.Finish()
 	h := &c10Harness{run: run, w: mfgen.NewWorker("TestVerifC10Worker"), rep: mfgen.NewReporter(run), allPair: run.Thorough()}
@@ -773,7 +775,7 @@ func TestVerifC10(t *testing.T) {
 		h.exec([]*c10Prep{pr})
 		h.garbage(pr)
 	})
-	n := run.N(20000, 500000)
+	n := run.N(16000, 500000)
 	run.Cases("main", n, func(i int, _ *verifkit.Rand) {
 		pr := h.window("main", i, n, func(rng *verifkit.Rand) *c10Prep { return h.prepValid(mfgen.MainCase(rng), rng, 80) })
 		run.Input(pr.c, true)
@@ -785,7 +787,7 @@ func TestVerifC10(t *testing.T) {
 			run.Checkpoint()
 		}
 	})
-	n = run.N(4000, 60000)
+	n = run.N(3000, 60000)
 	run.Cases("reject", n, func(i int, _ *verifkit.Rand) {
 		pr := h.window("reject", i, n, func(rng *verifkit.Rand) *c10Prep { return h.prepAny(mfgen.RejectCase(rng)) })
 		run.Input(pr.c, true)
@@ -794,7 +796,7 @@ func TestVerifC10(t *testing.T) {
 		}
 		h.reject(pr)
 	})
-	n = run.N(6000, 150000)
+	n = run.N(5000, 150000)
 	run.Cases("garbage", n, func(i int, _ *verifkit.Rand) {
 		pr := h.window("garbage", i, n, func(rng *verifkit.Rand) *c10Prep {
 			c := mfgen.GarbageCase(rng)
@@ -809,6 +811,13 @@ func TestVerifC10(t *testing.T) {
 		}
 		h.garbage(pr)
 	})
+	h.w.Close()
+	if h.py != nil {
+		h.py.Close()
+	}
+	self, kids := mfgen.CPUSeconds()
+	run.Count("cpu_ms_harness", int(self*1000))
+	run.Count("cpu_ms_worker_and_python", int(kids*1000))
 	run.Count("worker_spawns", h.w.Spawns)
 	run.Count("worker_calls", h.w.Calls)
 	if h.py != nil {
